@@ -4,7 +4,7 @@ import os
 import re
 
 from ..engine import rule, Ctx
-from ..core import UNKNOWN, dotted, kwarg, body_nodes, inline, stmt_key, canon, walk_no_nested
+from ..core import UNKNOWN, dotted, kwarg, body_nodes, inline, stmt_key, canon, walk_no_nested  # noqa
 from . import common
 
 PROP = "C03"
@@ -53,6 +53,20 @@ def c03_a(ctx: Ctx):
             else:
                 pat = ctx.fold(base, fi)
                 pat = pat[1] if isinstance(pat, tuple) and pat and pat[0] == "re.compile" else UNKNOWN
+            flags = None
+            raw = ctx.fold(n.args[0], fi) if (dotted(base) == "re" and n.args) else ctx.fold(base, fi)
+            if isinstance(raw, tuple) and len(raw) > 2:
+                flags = raw[2]
+            if dotted(base) == "re":
+                fl = n.args[2] if len(n.args) > 2 else kwarg(n, "flags")
+                if fl is not None:
+                    flags = canon(fl)
+            if flags:
+                if any(x in flags for x in ("IGNORECASE", "re.I", "(?i)")):
+                    out.append(ctx.viol(R, fi, n, f"the id pattern is applied case-insensitively ({flags}): directories named like an upper-case id are listed as jobs although "
+                                        "no state point hashes to such a name", construct=JOBDIRS + "|flags"))
+                else:
+                    out.append(ctx.inc(R, fi, n, f"regular expression flags {flags} on the id pattern", construct=JOBDIRS + "|flags"))
             matches.append((n, n.func.attr, pat))
     yields = [n for n in body_nodes(fi) if isinstance(n, (ast.Yield, ast.YieldFrom))]
     if not yields:
@@ -224,6 +238,15 @@ def c03_b(ctx: Ctx):
             out.append(ctx.inc(R, f, st, "id written on an object expression that is not a simple name"))
             continue
         out += _resets_after(ctx, R, f, st, obj, path_d, "the id change")
+    # the reset helper called for every handle copy on an id change must leave the shared state point object attached
+    rs = method_resets(ctx, "signac.job:Job._initialize_lazy_properties")
+    bad_fields = sorted(rs & {"_statepoint_requires_init", "_statepoint", "_project", "_id"})
+    ilp = ctx.fn("signac.job:Job._initialize_lazy_properties")
+    if bad_fields:
+        out.append(ctx.viol(R, ilp, ilp.node, f"_initialize_lazy_properties also resets {bad_fields}; _StatePointDict._save calls it on every handle copy after a re-key, so each copy builds a private "
+                            "state point object and stops following later re-keys made through the other copies", construct=ilp.qual + "|scope"))
+    else:
+        out.append(ctx.ok(R, ilp, ilp.node, f"_initialize_lazy_properties resets only the lazily created per-handle fields {sorted(rs)}", construct=ilp.qual + "|scope"))
     # remove()
     rem = ctx.fn("signac.job:Job.remove")
     rm = [e for e in ctx.effects.direct(rem) if e.prim == "shutil.rmtree"]
@@ -293,6 +316,18 @@ def c03_b(ctx: Ctx):
                 bad = bad or w
             if bad is None:
                 out.append(ctx.ok(R, mv, st, "after the rename, move() adopts the complete state of a freshly opened destination handle", construct=c))
+                # the destination handle must still be pristine when it is adopted: any method call / lazy property on it creates per-handle
+                # objects (a state point collection whose handle list contains only the discarded handle) that the moved handle would inherit
+                touched = []
+                for n2 in body_nodes(mv):
+                    if isinstance(n2, ast.Attribute) and isinstance(n2.value, ast.Name) and n2.value.id == "dst" and n2.attr not in ("path", "id", "_id", "__dict__", "_path"):
+                        touched.append(n2)
+                k4 = f"{mv.qual}|move|dst-pristine"
+                if touched:
+                    out.append(ctx.viol(R, mv, touched[0], f"move() uses dst.{touched[0].attr} before adopting dst.__dict__: the destination handle is no longer pristine (e.g. its state point collection "
+                                        "lists only the discarded handle), so a later state point edit migrates the directory without updating the moved handle's id and path", construct=k4))
+                else:
+                    out.append(ctx.ok(R, mv, st, "the destination handle is adopted untouched (only its path is read)", construct=k4))
                 # the adopted state is complete only if Job.__init__ binds every per-handle field as an instance attribute
                 ji = ctx.fn("signac.job:Job.__init__")
                 jcfg = ctx.cfg(ji)
